@@ -171,6 +171,30 @@ func c34(sum *lib.Summary) {
 		}
 	}
 
+	// ---------------------------------------------------------------- (b) mutation during iteration: exhaustive grid
+	h = lib.NewHost()
+	for i, gc := range iterGrid() {
+		if i%80 == 79 {
+			h = lib.NewHost()
+		}
+		oi := observe(h.RunScript(gc.Src, nil, false))
+		ov := observe(h.RunScript(gc.Src, nil, true))
+		sum.Evaluations += 2
+		if oi.Class == "CheckerError" || oi.Class == "ParseError" {
+			sum.Count("grid-rejected")
+			sum.Fail("generator:rejected:grid", fmt.Sprintf("grid program %s rejected by the checker: %v", gc.Name, head(fmt.Sprint(h.RunScript(gc.Src, nil, false).Err), 600)),
+				map[string]any{"name": gc.Name, "source": gc.Src})
+			continue
+		}
+		sum.Count("grid-outcome:" + outcomeTag(oi) + ":" + lastPart(oi.Kind))
+		note(gc.Src, oi)
+		if !oi.same(ov) {
+			parts := strings.Split(gc.Name, "/") // container/outer/inner/mutation/position
+			sum.Fail("engines-differ:iteration:"+parts[0]+"/"+parts[2]+"/"+parts[4], fmt.Sprintf("interpreter and VM disagree on mutation-during-iteration program %s: interpreter %s; VM %s", gc.Name, oi, ov),
+				map[string]any{"name": gc.Name, "source": gc.Src, "interpreter": oi.String(), "vm": ov.String()})
+		}
+	}
+
 	// ---------------------------------------------------------------- (b) transactions with storage, two hosts
 	runHistory := func(hist int) {
 		hi, hv := lib.NewHost(), lib.NewHost()
@@ -225,6 +249,13 @@ func c34(sum *lib.Summary) {
 	for hist := 0; hist < ntx/8; hist++ {
 		runHistory(hist)
 	}
+}
+
+func lastPart(s string) string {
+	if i := strings.LastIndex(s, "."); i >= 0 {
+		return s[i+1:]
+	}
+	return s
 }
 
 func outcomeTag(o observed) string {
